@@ -20,6 +20,11 @@ ISA['general'] = dict(ISA['general'], allow_embedded_strings=True)
 ISA['macros'] = {'mac': [{'operands': {'count': 2, 'operand_sets': {'list': ['reg', 'imm']}},
                           'instructions': ['ldi @REG(0), @ARG(1)', 'brr @ARG(1)']}]}
 ISA['operand_sets'] = dict(ISA['operand_sets'], imm4={'operand_values': {'i4': {'type': 'numeric', 'argument': {'size': 4, 'byte_align': False}}}})
+ISA['operand_sets']['rel_c'] = {'operand_values': {'rc': {'type': 'relative_address', 'use_curly_braces': True,
+                                                           'argument': {'size': 8, 'byte_align': True}}}}
+ISA['instructions'] = dict(ISA['instructions'], brc={'bytecode': {'value': 0x91, 'size': 8}, 'operands': {'count': 1, 'operand_sets': {'list': ['rel_c']}}})
+# an operand-less instruction declared with an explicit empty operands block
+ISA['instructions'] = dict(ISA['instructions'], hlt0={'bytecode': {'value': 0x92, 'size': 8}, 'operands': {'count': 0}})
 ISA['instructions'] = dict(ISA['instructions'], n4={'bytecode': {'value': 0x3, 'size': 4}, 'operands': {'count': 1, 'operand_sets': {'list': ['imm4']}}})
 ISA['predefined'] = {'memory_zones': [{'name': 'zz', 'start': 0x40, 'end': 0x5F}],
                      'data': [{'name': 'blk', 'address': 0x70, 'value': 1, 'size': 2}],
@@ -27,7 +32,7 @@ ISA['predefined'] = {'memory_zones': [{'name': 'zz', 'start': 0x40, 'end': 0x5F}
 
 BASES = {
     'code': ['start: nop', '    ldi a, 5', '.loop:', '    ldi b, val+1', '    brr .loop', '    jmp start', '    push a',
-             '    ldm [val]', '    sel foo', '    n12 3', '    n4 7', 'val: .byte 1, 2, $1F', '    .2byte start, val'],
+             '    ldm [val]', '    sel foo', '    n12 3', '    n4 7', '    hlt0', '    brc {start}', 'val: .byte 1, 2, $1F', '    .2byte start, val'],
     'control': ['#define SA 1', '#define SB SA', '#if SA == 1', '    .byte 1', '#elif SB', '    .byte 2', '#else', '    .byte 3', '#endif',
                 '#ifdef PRE', '    .byte SB', '#endif', '#ifndef NOPE', 'K = 4', '#endif', '    .byte K'],
     'layout': ['    .org $10', 'a1: .byte 1', '    .align 8', '    .fill 3, $55', '    .zero 2', '    .zerountil $25', '    .memzone zz',
@@ -73,7 +78,10 @@ def must_reject(lines):
             if t in ('start', 'val', '.loop', 'top', 'a1', 'z1', 'inc_lab') and not line.lstrip().startswith(t + ':') and \
                     not (k + 1 < len(toks) and toks[k + 1] == ':'):
                 out.append((f'line {i}: label reference {t} := undefined name', lines[:i] + [''.join(toks[:k] + ['undefined_q'] + toks[k + 1:])] + lines[i + 1:]))
-            if t in ('nop', 'ldi', 'brr', 'jmp', 'push', 'ldm', 'sel', 'n12', 'n4', 'mac'):
+            if t in ('nop', 'hlt0') and line.strip() == t:
+                for extra in ('5', 'a', 'val', '[5]', 'val, 5'):
+                    out.append((f'line {i}: operand {extra!r} after {t}, which takes none', lines[:i] + [f'    {t} {extra}'] + lines[i + 1:]))
+            if t in ('nop', 'ldi', 'brr', 'jmp', 'push', 'ldm', 'sel', 'n12', 'n4', 'mac', 'hlt0', 'brc'):
                 out.append((f'line {i}: mnemonic {t} := unknown word', lines[:i] + [''.join(toks[:k] + ['qqq'] + toks[k + 1:])] + lines[i + 1:]))
         m = re.match(r'^(\s*(?:\w+:\s*)?)(ldi|push|ldm|sel|n12|n4|brr|jmp)\s+(.*)$', line)
         if m:
@@ -113,6 +121,19 @@ def long_expressions(n):
     return out
 
 
+def long_words(n):
+    """Operands that are opened and never closed, followed by one long word or many short ones: every pattern that could match them
+    must give up in reasonable time."""
+    w = 'a' * n
+    ws = ' '.join(['ab'] * (n // 2))
+    out = []
+    for t in (w, ws):
+        out += [f'    brc {{{t}', f'    brc {{{t} +', f'    ldm [{t}', f'    ldm [[{t}]', f'    jmp ({t}', f'    jmp (({t})', f'    .byte "{t}',
+                f"    .cstr '{t}", f'    ldi a, ({t}', f'    sel {t}', f'    push {t}', f'    mac a, {{{t}', f'#include "{t}', f'#define LW ({t}',
+                f'    .org ({t}', f'    "{t}', f'{t}', f'{t}:{t}']
+    return out
+
+
 def meta(tier):
     q = tier == 'quick'
     return {
@@ -120,7 +141,8 @@ def meta(tier):
                 'deviation: drop / duplicate / garble (5 characters) each token, drop / duplicate each line, insert a zero-length '
                 'directive at each position, and the four must-reject replacements (undefined label, unknown mnemonic, operands no '
                 'variant accepts, value just outside its field on either side), a directive with an unresolvable label inserted at each '
-                'position (also directives that emit nothing: .fill 0, x); expression-length family (N in 8,16,24,32,64 tokens in every expression position); '
+                'position (also directives that emit nothing: .fill 0, x); expression-length family (N in 8,16,24,32,64 tokens in every expression position); long-word family (an operand, string or '
+                'bracket that is opened and never closed, followed by one word of 16..64 characters or many short ones, in 18 positions); '
                 'empty-image family (5 programs that assemble to no byte at all x configurations x output pre-seeded / absent: the image must exist afterwards); '
                 'wide-address family (address widths 24/32/40/64 x code at 7 addresses around 2^16, 2^24, 2^32, 2^40, 2^48 x every format, where a '
                 'format may be unable to express the address and the failure arises while the outputs are produced); each '
@@ -273,6 +295,12 @@ def shard(acc, tier, idx, n):
                         continue
                     body = [f'    .org {a}', 'start: nop', '    .byte 1, 2', '    ldi a, 5']
                     execute(acc, body, f'{asz}-bit addresses, code at {a:#x}', None, 'wide-address', dict(cfg, start=a), preseed=pre, isa=wide)
+    for nn in (16, 24, 32, 64):
+        for li, line in enumerate(long_words(nn)):
+            ctr += 1
+            if ctr % n != idx:
+                continue
+            execute(acc, [line, '    .byte 1'], f'{nn} characters: {line[:24]}...', None, 'long-expression', CONFIGS[0])
     for nn in (8, 16, 24, 32, 64):
         for li, line in enumerate(long_expressions(nn)):
             ctr += 1
